@@ -546,11 +546,8 @@ def env : Env where
   now := 1000
   strptime := fun _ => none
   zoneName := fun _ => none
-  fileTime := fun f => match f with
-    | .modified => some (100, t100)
-    | .created => some (200, t200)
-    | .access => some (300, t300)
-    | .header => none
+  fileTime := fun _ => some { atime := 300, mtime := 100, ctime := 200 }
+  timeFormat := fun t => if t = 100 then some t100 else if t = 200 then some t200 else if t = 300 then some t300 else none
   dryrun := true
   path := [47, 109, 47, 110, 101, 119, 47, 49]       -- /m/new/1
 
